@@ -2,9 +2,11 @@
    Statements only; proofs in Proofs/FHeap.v; model and specification in Model/FHeap.v.
 
    Hypotheses (named boolean predicates, Model/FHeap.v):
-     bs_ok bs          19 < bs <= 65536 (2-byte heap offsets address every byte; refuted beyond: C15_offset_wrap_refuted)
+     bs_ok bs          19 < bs <= 65536 (the model has 2-byte heap offsets, as the code for these sizes; beyond, the pinned code
+                       wrapped ids - C15_offset_wrap_refuted - and the repaired code (aca2fa7) uses wider offsets, not modelled)
      one_block bs h    the volume of the successful inserts stays within the usable size bs - 19 of one direct block
-                       (refuted beyond: C15_multi_block_refuted, C15_full_refuted_indirect)
+                       (beyond: the insert succeeds in memory and every later write-out is refused:
+                       C15_multi_block_refuted, C15_full_refuted_indirect)
      targets_live bs h get / overwrite / delete address ids that are live at that point
                        (refuted for delete of a dead id: C15_dead_id_refuted)
    cap_new is the repaired capacity rule (usable = size - prefix 15 - checksum 4); cap_old the pinned one. *)
@@ -47,7 +49,7 @@ Theorem C15_persist : forall bs hist,
     spec_run bs spec0 hist = Some (sp, eouts)
     /\ run cap_new bs (new_heap bs, fs0) hist = (h, fs, eouts)
     /\ exists h1 fs1 ha h2,
-         store h fs = (h1, fs1, ha) /\ load bs (f_bytes fs1) ha = Ok h2
+         store h fs = Ok (h1, fs1, ha) /\ load bs (f_bytes fs1) ha = Ok h2
          /\ observables bs h2 sp
          /\ h_nobj h2 = h_nobj h /\ h_free h2 = h_free h /\ h_manoff h2 = h_manoff h
          /\ db_free (h_blk h2) = db_free (h_blk h)
@@ -85,7 +87,7 @@ Theorem C15_readers : forall bs hist,
     spec_run bs spec0 hist = Some (sp, eouts)
     /\ run cap_new bs (new_heap bs, fs0) hist = (h, fs, eouts)
     /\ exists h1 fs1 ha,
-         store h fs = (h1, fs1, ha)
+         store h fs = Ok (h1, fs1, ha)
          /\ forall id d, lookup id (sp_live sp) = Some d ->
               ro_read (f_bytes fs1) ha id = Ok d /\ core_read (f_bytes fs1) ha id = Ok d.
 Proof. exact readers. Qed.
@@ -107,10 +109,9 @@ Theorem C15_multi_block_refuted :
   let hist := [Ins a 0; Ins b 0] in
   let idb := mkid 64 40 in
   bs_ok 64 = true /\ targets_live 64 hist = true /\ one_block 64 hist = false
-  /\ outs_of cap_new 64 (hist ++ [Get idb; SL]) = [OId (mkid 0 40); OId idb; OData b; OErr]
-  /\ (let '(h1, fs1, ha) := store (heap_of cap_new 64 hist) (file_of cap_new 64 hist) in
-      ro_read (f_bytes fs1) ha idb = Err /\ core_read (f_bytes fs1) ha idb = Err
-      /\ ro_read (f_bytes fs1) ha (mkid 0 40) = Err).
+  /\ outs_of cap_new 64 (hist ++ [Get idb; SL; Get idb]) = [OId (mkid 0 40); OId idb; OData b; OErr; OData b]
+  /\ store (heap_of cap_new 64 hist) (file_of cap_new 64 hist) = Err
+  /\ f_bytes (file_of cap_new 64 (hist ++ [SL])) = [].
 Proof. exact multi_block_refuted. Qed.
 Print Assumptions C15_multi_block_refuted.
 
